@@ -88,16 +88,21 @@ func (l *Lexer) NextToken() (lexer.Token, error) {
 	for curr, next := 0, 0; ; curr = next {
 		// Read the next character from the input stream.
 		r, err := l.in.Next()
-		if err != nil {
+		if err != nil && (curr == 0 || !errors.Is(err, io.EOF)) {
 			return lexer.Token{}, err
 		}
 
 		// Keep running the DFA through the input symbols.
-		next = advanceDFA(curr, r)
+		// The end of the input terminates a pending lexeme the same way an invalid symbol does.
+		if next = errorState; err == nil {
+			next = advanceDFA(curr, r)
+		}
 
 		if next == errorState {
 			// Retract one character, as the last read character did not belong to the current token.
-			l.in.Retract()
+			if err == nil {
+				l.in.Retract()
+			}
 
 			// Evaluate the final state of the DFA.
 			token := l.evalDFA(curr)
